@@ -224,6 +224,11 @@ OBJ_ITEMS = [
         bad=[{"x": "1"}, {"z": 0}, None]),
 ]
 ARRAY_SPECS = ["B", "H", "I", "L", "Q", "default", "len0", "len1", "len2", "exhaust"]
+# noLengthEncodingExhaustBuffer together with an explicit arrayLengthFormat: the schema is accepted and the
+# documented layout has no length prefix (the exhaust flag decides), so encoder and decoder must both ignore
+# the format (seed c12c: the decoder started to read a prefix again).
+EXHAUST_FMT_SPECS = {"quick": ["exhaust+B", "exhaust+Q"],
+                     "thorough": ["exhaust+B", "exhaust+H", "exhaust+I", "exhaust+L", "exhaust+Q"]}
 
 
 def _array_sub(item_sub, spec):
@@ -232,16 +237,18 @@ def _array_sub(item_sub, spec):
         sub["arrayLengthFormat"] = spec
     elif spec.startswith("len"):
         sub["length"] = int(spec[3:])
-    elif spec == "exhaust":
+    elif spec.startswith("exhaust"):
         sub["noLengthEncodingExhaustBuffer"] = True
+        if "+" in spec:
+            sub["arrayLengthFormat"] = spec.split("+")[1]
     return sub
 
 
 def fam_array(tier):
     out = []
     for item in _leaves(tier) + OBJ_ITEMS:
-        for spec in ARRAY_SPECS:
-            if spec == "exhaust" and _zero_width(item["sub"]):
+        for spec in ARRAY_SPECS + EXHAUST_FMT_SPECS["quick" if tier == "quick" else "thorough"]:
+            if spec.startswith("exhaust") and _zero_width(item["sub"]):
                 continue  # reading zero-width elements "until the buffer is exhausted" is undefined
             sub = _array_sub(item["sub"], spec)
             dom = _array_dom(item["good"], item["err"], item["bad"], spec)
@@ -464,8 +471,8 @@ def fam_exhaust(tier):
         for lz in lv:
             if _zero_width(lz["sub"]):
                 continue
-            for top in ("object", "union"):
-                schema = _struct({"a": copy.deepcopy(la["sub"]), "z": _array_sub(lz["sub"], "exhaust")}, top)
+            for top, spec in (("object", "exhaust"), ("union", "exhaust"), ("object", "exhaust+H")):
+                schema = _struct({"a": copy.deepcopy(la["sub"]), "z": _array_sub(lz["sub"], spec)}, top)
                 doms = {"a": la["good"][:2] + la["bad"][:1],
                         "z": _array_dom(lz["good"], lz["err"], lz["bad"], "exhaust")}
                 out.append(_case(schema, _object_values(schema["properties"], doms, top)))
